@@ -145,7 +145,7 @@ def run_history(rolllog, clock, fp, tmp, spec, stats, k):
             fp.at = None
             fp.n = 0
             try:
-                r = rolllog.RollLog(logd, spec['mode'], rdonly=True, head=head)
+                r = rolllog.RollLog(logd, spec['mode'], rdonly=True, head=head, **({'file_size': spec['rfs']} if spec.get('rfs') else {}))
             except Exception as e:
                 raise rh.Viol('restart-failed', f'incarnation {inc} could not start: {type(e).__name__}: {e}; head file = {_peek(head)!r}')
             cur = saved if saved is not None else w.first_on_disk()
@@ -250,7 +250,9 @@ def gen_history(rng, crash_step='random'):
         if rng.random() < 0.4:
             ops.append(['close'])
         incs.append(ops)
-    return {'mode': mode, 'fs': fs, 'ts': ts, 'incs': incs}
+    # file_size is a writer-side setting; a reader object may have been constructed with any value (default, smaller, larger)
+    rfs = rng.choice([None, None, 1, max(1, fs // 2), fs, fs * 4])
+    return {'mode': mode, 'fs': fs, 'ts': ts, 'incs': incs, 'rfs': rfs}
 
 
 def save_positions(spec):
